@@ -54,6 +54,68 @@ def drive(ctx, binary, mode, hists, cfg, tag):
     return res
 
 
+TRACE_CFG = ('SPECIFICATION TSpec\nCONSTANTS MaxGen = 4 MaxAttempts = 0 InitialWait = 1 MaxWait = 1 WithMonitor = FALSE CloseSignal = "pergen+id" '
+             'Sequential = FALSE AllowCloseFail = TRUE StartAtomic = FALSE\nINVARIANTS TraceOneCause TraceNoSpurious TraceCauseKind NoStaleReader\n'
+             'CONSTRAINT HighWater\nPOSTCONDITION Accepted\nCHECK_DEADLOCK FALSE\n')
+
+
+def validate_trace(ctx, txt, count=True):
+    return ctx.tlc("AdapterLifeTrace", "t.cfg", cfg_text=TRACE_CFG, workers=1, timeout=1800, heap="8g",
+                   extra_files={"life_trace.ndjson": txt}, dfs=False, count=count)
+
+
+def trace_validation(ctx, binary, nscen):
+    chunk = 500
+    total_events = total_scen = 0
+    first = None
+    for k in range(0, nscen, chunk):
+        n = min(chunk, nscen - k)
+        tf = os.path.join(ctx.scratch, "life_trace_%d.ndjson" % k)
+        out = os.path.join(ctx.scratch, "r_trace_%d.json" % k)
+        p = ctx.run_driver(binary, ["-mode", "trace", "-trace", tf, "-n", str(n), "-seed", str(ctx.seed * 1000 + k), "-out", out], timeout=1500)
+        if p.returncode != 0 or not os.path.exists(out):
+            raise MachineryError("life driver (trace) failed (rc %s): %s" % (p.returncode, p.stdout[-3000:]))
+        res = json.load(open(out))
+        for v in res.get("violations") or []:
+            ctx.violation("trace/" + v["key"], v["text"], v["replay"])
+        txt = open(tf).read()
+        if not txt.strip():
+            raise MachineryError("empty trace")
+        first = first or txt
+        r = validate_trace(ctx, txt)
+        lines = txt.splitlines()
+        if r.ok:
+            total_scen += res["runs"]
+            total_events += len(lines)
+            for i in range(res["runs"]):
+                ctx.case(key=["trace", k + i], nontrivial=True)
+            continue
+        at = [s for s in r.printed if s.startswith("REJECTED-AT")]
+        kk = int(at[0].split()[1]) if at else 1
+        excerpt = lines[max(0, kk - 30):kk + 3]
+        if r.violated == "NoStaleReader":
+            ctx.violation("stale/stale-reader/open-close-open-before-first-read", "a recorded behaviour shows a read loop of an earlier generation reading "
+                          "the reopened transport (NoStaleReader) around event %d" % kk, dict(excerpt=excerpt))
+        elif r.violated and r.violated not in ("Accepted", "postcondition"):
+            ctx.violation("trace/invariant-" + r.violated, "a recorded behaviour of the adapter transport violates %s of AdapterLife around event %d: %s"
+                          % (r.violated, kk, excerpt[-8:]), dict(excerpt=excerpt))
+        else:
+            ctx.violation("trace/not-a-behaviour", "the recorded events are not a behaviour of AdapterLife: rejected at event %d: %s" % (kk, lines[max(0, kk - 8):kk + 1]),
+                          dict(excerpt=excerpt, seed=ctx.seed * 1000 + k))
+    ctx.traces_validated += total_scen
+    ctx.extra["trace_validation"] = dict(scenarios=total_scen, events=total_events)
+    # binding self-test: a trace in which one "the close signal was there" is turned into "was not there" must be rejected
+    lines = first.splitlines()
+    idx = [i for i, x in enumerate(lines) if '"rl.signalled"' in x]
+    if idx:
+        lines[idx[0]] = lines[idx[0]].replace("rl.signalled", "rl.closing")
+        cut = "\n".join(lines[:lines.index('{"ev":"reset","g":0,"k":""}', idx[0]) + 1]) + "\n"
+        r = validate_trace(ctx, cut, count=False)
+        if r.ok:
+            raise MachineryError("binding self-test: a corrupted life trace (event %d) was accepted by AdapterLifeTrace" % (idx[0] + 1))
+        ctx.extra["trace_binding_selftest"] = "turning the rl.signalled of event %d into rl.closing makes TLC reject the trace" % (idx[0] + 1)
+
+
 def run(ctx):
     thorough = ctx.tier == "thorough"
     ctx.rule = ("histories = every sequence (quick: length 4, thorough: length 5 + random walks of length 7) of "
@@ -63,7 +125,9 @@ def run(ctx):
                 "failure precedes the read failure on odd offsets), and after every step the projected state (IsOpen, "
                 "values on each generation's Closed() channel, monitor callback log with attempt numbers and waits, result "
                 "of the call) must equal the specification's; plus gate-steered races of a user Close against the read loop "
-                "held after its failed read / after its signal check, followed by a second failure. non-trivial = contains "
+                "held after its failed read / after its signal check, followed by a second failure; plus free-running scenarios (a user "
+                "thread issuing Open / failing Open / Close / failing Close, stream faults, read loops scheduled by the Go runtime) "
+                "recorded through the life.* hooks and validated event by event against AdapterLifeTrace. non-trivial = contains "
                 "a fault or a race; distinct by JSON of the history")
     ctx.assumptions += ["clean close = user Close() or peer EOF (Go read loop, Java isCleanClose); anything else non-nil",
                         "with a live monitor reopening is the monitor's job (a user Open racing the runner is outside the histories)",
@@ -117,6 +181,8 @@ def run(ctx):
         if mon == "FALSE":
             rn = drive(ctx, binary, "natshist", hs, cfg, "nats-" + tag)
             ctx.extra["nats_transport_histories"] = rn["runs"]
+    # free-running scenarios recorded through the life.* hooks and validated against AdapterLifeTrace
+    trace_validation(ctx, binary, 3000 if thorough else 400)
     rr = drive(ctx, binary, "race", [], dict(max_attempts=0, initial_wait_ms=1, max_wait_ms=1, with_monitor=False), "race")
     for i in range(rr["runs"]):
         ctx.case(key=["race", i], nontrivial=True)
